@@ -26,6 +26,10 @@ def run(prog: Program, res: Result, tier: str) -> None:
     iso.check_side(prog, res)
     iso.check_mirror(prog, res)
     iso.check_feasibility(prog, res)
+    iso.check_both_sides(prog, res)
+    iso.check_revert(prog, res)
+    iso.check_stereo_index(prog, res)
+    iso.check_prechecks(prog, res)
     # identifier independence of the labels
     hashrules.check_aggregation(prog, res)
     hashrules.check_multiset_def(prog, res)
@@ -34,6 +38,8 @@ def run(prog: Program, res: Result, tier: str) -> None:
     C04.check_tables(prog, res)
     for name in C04.DESCRIPTOR_CLASSES:
         C04.check_eq(prog, res, prog.resolve_method(name, "__eq__"), name)
+        # the stereo-change predicate compares SETS of descriptors
+        C04.check_hash(prog, res, prog.resolve_method(name, "__hash__"), name)
         C04.check_perm_helpers(prog, res, name)
     C04.check_placeholder_safe(prog, res)
     # relabel leaves a usable graph (neighbour table of isolated atoms)
